@@ -79,8 +79,14 @@ fn eval_concat(ms: &[&Member], acc: &mut Acc) {
         want.extend(doc_events(&m.obs, &mut map, &mut next, true));
     }
     let want_docs: Vec<Canon> = ms.iter().flat_map(|m| m.docs.iter().cloned()).collect();
-    for api in [Api::Iter, Api::Push] {
-        let Ok(o) = observe(&joined, Backend::Str, api) else { continue };
+    for (api, be) in [(Api::Iter, Backend::Str), (Api::Push, Backend::Str), (Api::Iter, Backend::Buf)] {
+        let o = match observe(&joined, be, api) {
+            Ok(o) => o,
+            Err(m) => {
+                acc.violation(Violation { key: format!("concatenation-panics api={}", api.name()), expected: "the concatenation parses".into(), observed: format!("panic: {m}"), case: hist_case(&texts), size });
+                continue;
+            }
+        };
         if let Some(e) = &o.err {
             acc.violation(Violation { key: format!("concatenation-rejected api={} err={}", api.name(), crate::props::sweep::classify_panic(&e.info)), expected: "each member parses alone, so the concatenation parses".into(), observed: e.display.clone(), case: hist_case(&texts), size });
             continue;
@@ -144,6 +150,16 @@ fn directive_table() -> Vec<String> {
         "--- >\n",
         "--- [a,\n b]\n",
         "- |\n a\n-\n",
+        "a\n\n",
+        "- a\n\n",
+        "b\n c\n",
+        "- b\n  c\n",
+        "\u{feff}a\n",
+        "--- |\n  \n",
+        "|\n \n \n",
+        ">-\n",
+        "|+\n\n",
+        "--- \"a\n  b\"\n",
     ]
     .iter()
     .map(|s| s.to_string())
